@@ -25,6 +25,7 @@ import GraphiqModel.Proofs.MixtureDMTotal
 import GraphiqModel.Proofs.MixtureDMPhysMeas
 import GraphiqModel.Proofs.MixtureDMZero
 import GraphiqModel.Proofs.MixtureDMWeights
+import GraphiqModel.Proofs.MixtureDMJoint
 namespace Graphiq.C06
 open Graphiq Graphiq.Noise Graphiq.DM
 
@@ -526,6 +527,43 @@ theorem per_branch_measurement_differs :
            compileStab true 1 0 1 true [{ kind := .x, n0 := .depol (1/3) true }, { kind := .measZ }] with
       | .ok { ρ := some ρ, .. }, .ok s => ρ.e 1 1 == ⟨1, 0⟩ && (mixtureDensity 1 s.mix).e 1 1 == ⟨7/9, 0⟩
       | _, _ => false) = true := by decide +kernel
+
+/-! ### a verified repair for F2 (a proposal — *not* a model of the code as it stands) -/
+
+section f2_repair
+open Graphiq.MixDM
+
+/-- **the joint measurement of the repair proposal projects the state of the mixture**, for every mixture of valid tableaux —
+    no agreement between the branches needed — and every n: with one outcome `o` for the whole mixture, branch `k` kept with
+    weight `w_k·P_k(o)` (`P_k(o) ∈ {0, ½, 1}` read off the tableau) and measured with forced outcome `o`,
+    `Σ (measureJoint q o m) = Π_o (Σ m) Π_o` and the new total weight is `tr((Σ m) Π_o)`. -/
+theorem repaired_measurement_projects (n q : Nat) (hq : q < n) (o : Bool) (m : Mixture) (hg : MixGood n m) :
+    mixRho n (measureJoint q o m) = projZ n q o * mixRho n m * projZ n q o ∧
+    ((Mix.total (measureJoint q o m) : ℚ) : ℂ) = (mixRho n m * projZ n q o).trace :=
+  ⟨(measureJoint_spec n q hq o m hg).1, (measureJoint_spec n q hq o m hg).2.1⟩
+
+/-- **the repaired `apply_measurement` agrees with the density-matrix backend on every mixture** (valid branches, weights ≥ 0):
+    whenever `DensityMatrix.apply_measurement` returns a matrix, it reports the outcome `measureJointNorm` chooses (same
+    `isclose` rule on the summed branch probabilities) and the matrix is `Σ_k w_k ρ(T_k)` of the mixture `measureJointNorm`
+    returns.  This is the step that fails for the per-branch measurement of the code (`per_branch_measurement_differs`). -/
+theorem repaired_measurement_agrees_with_density_matrix (n q : Nat) (hq : q < n) (det : Bool) (m : Mixture) (ρ p0 p1 : Mat)
+    (hg : MixGood n m) (hnn : MixNonneg m) (hρn : ρ.n = 2 ^ n) (hρ : toC n ρ = mixRho n m)
+    (hp : projectorsZ n q = .ok (p0, p1)) (ρ' : Mat) (o : Bool) (h : applyMeasurement ρ p0 p1 det = .ok (some ρ', o)) :
+    o = (measureJointNorm q det m).2 ∧ toC n ρ' = mixRho n (measureJointNorm q det m).1 ∧ ρ'.n = 2 ^ n ∧
+      MixGood n (measureJointNorm q det m).1 :=
+  joint_measurement_is_dm_measurement n q hq det m ρ p0 p1 hg hnn hρn hρ hp ρ' o h
+
+/-- on the F2 witness (`X` with depolarizing noise, then a Z measurement forced to 1) the repaired measurement reports outcome 1
+    and leaves overlap 1 with `|1⟩` — the density-matrix backend's value, where the code's per-branch measurement leaves `7/9` -/
+theorem repaired_measurement_on_the_F2_witness :
+    (match compileStab true 1 0 1 true [{ kind := .x, n0 := .depol (1/3) true }] with
+      | .ok s =>
+        (measureJointNorm 0 true s.mix).2 &&
+          (mixtureDensity 1 (measureJointNorm 0 true s.mix).1).e 1 1 == (⟨1, 0⟩ : GQ) &&
+          (mixtureDensity 1 (measureJointNorm 0 true s.mix).1).e 0 0 == (⟨0, 0⟩ : GQ)
+      | _ => false) = true := by decide +kernel
+
+end f2_repair
 
 /-! ## Non-vacuity -/
 
